@@ -156,6 +156,8 @@ fn io_err(e: &io::Error) -> String {
         "nospace".into()
     } else if e.kind() == io::ErrorKind::UnexpectedEof {
         "eof".into()
+    } else if e.kind() == io::ErrorKind::WriteZero {
+        "writezero".into()
     } else if msg.contains("verif-file-error") || e.raw_os_error().is_some() {
         "file".into()
     } else if msg.contains("would overflow") {
@@ -266,6 +268,34 @@ fn reader_op<S: BitmapSlice>(rs: &mut Vec<Reader<'_, S>>, f: &[&str]) -> Obs {
                 k => panic!("sink kind {}", k),
             }
         }
+        "X" => {
+            // read_exact_to: the sink sees everything the loop hands over
+            let count = num(f[2]) as usize;
+            let lim = num(f[4]) as usize;
+            match f[3] {
+                "f" => {
+                    let mut file = memfd(&[]);
+                    match rs[i].read_exact_to(&mut file, count) {
+                        Ok(()) => {
+                            let c = file_content(&mut file, 0);
+                            ok(c.len(), &c)
+                        }
+                        Err(e) => er(&io_err(&e)),
+                    }
+                }
+                "b" => match rs[i].read_exact_to(&mut rdonly_file(), count) {
+                    Ok(()) => ok(0, &[]),
+                    Err(e) => er(&io_err(&e)),
+                },
+                _ => {
+                    let mut s = LimSink { lim, got: vec![], fail: f[3] == "e" };
+                    match rs[i].read_exact_to(&mut s, count) {
+                        Ok(()) => ok(s.got.len(), &s.got),
+                        Err(e) => er(&io_err(&e)),
+                    }
+                }
+            }
+        }
         "s" => match rs[i].split_at(num(f[2]) as usize) {
             Ok(r) => {
                 a2 = r.available_bytes();
@@ -342,7 +372,7 @@ fn virtio_case(line: &str) -> String {
         for op in kv(line, "ops").split(';').filter(|s| !s.is_empty()) {
             let f: Vec<&str> = op.split(',').collect();
             let o = match f[0] {
-                "r" | "x" | "o" | "t" | "s" => reader_op(&mut rs, &f),
+                "r" | "x" | "o" | "t" | "s" | "X" => reader_op(&mut rs, &f),
                 _ if num(f[1]) as usize >= ws.len() => Obs { res: er("noindex"), a: 0, c: 0, a2: 0, c2: 0, pk: vec![] },
                 _ => {
                     let i = num(f[1]) as usize;
@@ -377,6 +407,19 @@ fn virtio_case(line: &str) -> String {
                             };
                             match r {
                                 Ok(n) => ok(n, &[]),
+                                Err(e) => er(&io_err(&e)),
+                            }
+                        }
+                        "A" => {
+                            let count = num(f[2]) as usize;
+                            let data = unhex(f.get(4).copied().unwrap_or(""));
+                            let r = match f[3] {
+                                "f" => ws[i].write_all_from(&mut memfd(&data), count),
+                                "b" => ws[i].write_all_from(&mut wronly_file(), count),
+                                _ => ws[i].write_all_from(&mut LimSrc { data, pos: 0, fail: f[3] == "e" }, count),
+                            };
+                            match r {
+                                Ok(()) => ok(0, &[]),
                                 Err(e) => er(&io_err(&e)),
                             }
                         }
